@@ -103,6 +103,7 @@ type Options struct {
 	SolverKind    string
 	PermuteMaps   bool
 	CallDepth     int
+	FuncBudgetS   float64 // wall-clock budget per harness function (0 = none)
 	SolverLog     string
 	CheckRewrites bool
 }
@@ -122,6 +123,7 @@ type Engine struct {
 	tpos      int
 	sdepth    int // number of decisions whose constraint is on the solver stack
 	pc        []*term.Term
+	pcLits    map[*term.Term]bool
 	nondets   []nondetRec
 	notes     []string
 	undo      []undoRec
@@ -282,9 +284,14 @@ func (e *Engine) Run(fn *ssa.Function) {
 	e.trace = e.trace[:0]
 	e.S.PopTo(0)
 	e.sdepth = 0
+	start := time.Now()
 	for {
 		e.runOnePath(fn)
 		e.Stats.Paths++
+		if e.Opt.FuncBudgetS > 0 && time.Since(start).Seconds() > e.Opt.FuncBudgetS {
+			e.inconclusive("time-budget-exceeded")
+			break
+		}
 		if e.Opt.MaxPaths > 0 && e.Stats.Paths >= e.Opt.MaxPaths {
 			e.inconclusive("max-paths")
 			break
@@ -336,6 +343,7 @@ func (e *Engine) resetPath() {
 	e.undo = e.undo[:0]
 	e.tpos = 0
 	e.pc = e.pc[:0]
+	e.pcLits = map[*term.Term]bool{}
 	e.nondets = e.nondets[:0]
 	e.notes = e.notes[:0]
 	e.nextObj = e.baseObj
@@ -369,6 +377,25 @@ func (e *Engine) runOnePath(fn *ssa.Function) {
 		e.callFunction(fn, nil)
 	}()
 	e.Stats.Instrs += e.instrs
+	if e.S.Dead {
+		// the solver was killed on a runaway query: restart it; the decision
+		// prefix is re-asserted lazily by the next replay
+		e.inconclusive("solver-killed-after-timeout")
+		e.S.Close()
+		if s, err := smt.New(e.Opt.SolverKind, e.Opt.TimeoutMs); err == nil {
+			e.S = s
+		}
+		e.sdepth = 0
+		if end.kind == endNormal {
+			end.kind = endInconclusive
+			end.msg = "solver-killed"
+		}
+	}
+	if e.S2 != nil && e.S2.Dead {
+		e.inconclusive("solver2-killed-after-timeout")
+		e.S2.Close()
+		e.S2 = nil
+	}
 	if len(e.trace) > e.Stats.MaxDepth {
 		e.Stats.MaxDepth = len(e.trace)
 	}
@@ -461,7 +488,63 @@ func (e *Engine) assertDecision(idx int, c *term.Term) {
 	e.sdepth++
 }
 
+// addPC records a path-condition conjunct and its literals.
+func (e *Engine) addPC(c *term.Term) {
+	e.pc = append(e.pc, c)
+	e.noteLit(c, true, 0)
+}
+
+func (e *Engine) noteLit(c *term.Term, val bool, depth int) {
+	if c.IsConst() || depth > 64 {
+		return
+	}
+	e.pcLits[c] = val
+	switch {
+	case c.Op == term.OpNot:
+		e.noteLit(c.A, !val, depth+1)
+	case c.Op == term.OpAnd && val:
+		e.noteLit(c.A, true, depth+1)
+		e.noteLit(c.B, true, depth+1)
+	case c.Op == term.OpOr && !val:
+		e.noteLit(c.A, false, depth+1)
+		e.noteLit(c.B, false, depth+1)
+	}
+}
+
+// reduce simplifies a boolean term under the literals already on the path
+// condition (sound: it only replaces subterms the path condition fixes).
+func (e *Engine) reduce(c *term.Term, depth int) *term.Term {
+	if c.IsConst() || c.W != 0 {
+		return c
+	}
+	if v, ok := e.pcLits[c]; ok {
+		return term.Bool(v)
+	}
+	if depth > 64 {
+		return c
+	}
+	switch c.Op {
+	case term.OpNot:
+		r := e.reduce(c.A, depth+1)
+		if r != c.A {
+			return term.Not(r)
+		}
+	case term.OpAnd:
+		a, b := e.reduce(c.A, depth+1), e.reduce(c.B, depth+1)
+		if a != c.A || b != c.B {
+			return term.And(a, b)
+		}
+	case term.OpOr:
+		a, b := e.reduce(c.A, depth+1), e.reduce(c.B, depth+1)
+		if a != c.A || b != c.B {
+			return term.Or(a, b)
+		}
+	}
+	return c
+}
+
 func (e *Engine) feasible(c *term.Term) (bool, bool) {
+	c = e.reduce(c, 0)
 	if c.IsTrue() {
 		return true, true
 	}
@@ -481,18 +564,30 @@ func (e *Engine) feasible(c *term.Term) (bool, bool) {
 	return true, false
 }
 
-// checkWith routes to the alternative solver when the main one answers unknown
-// and multiplication/division is involved.
+// checkWith decides satisfiability of the path condition plus c. Queries that
+// involve multiplication or division (the date kernels x*100, x/100) go to
+// cvc5 with integer blasting, which decides them in milliseconds where
+// bit-blasting does not finish; everything else goes to the incremental z3.
 func (e *Engine) checkWith(c *term.Term) smt.Result {
-	r := e.S.CheckWith(c)
-	if r != smt.Unknown {
-		return r
+	mul := c.HasMul
+	if !mul {
+		for _, p := range e.pc {
+			if p.HasMul {
+				mul = true
+				break
+			}
+		}
 	}
-	// retry on cvc5 with integer blasting on the full path condition
+	if !mul {
+		r := e.S.CheckWith(c)
+		if r != smt.Unknown {
+			return r
+		}
+	}
 	if e.S2 == nil {
 		s2, err := smt.New("cvc5-int", e.Opt.TimeoutMs)
 		if err != nil {
-			return r
+			return smt.Unknown
 		}
 		e.S2 = s2
 	}
@@ -509,6 +604,11 @@ func (e *Engine) checkWith(c *term.Term) smt.Result {
 
 // fork chooses among alternative constraints. Returns the index chosen.
 func (e *Engine) fork(alts []*term.Term) int {
+	ra := make([]*term.Term, len(alts))
+	for i, a := range alts {
+		ra[i] = e.reduce(a, 0)
+	}
+	alts = ra
 	// fast path: constants
 	nonFalse := -1
 	cnt := 0
@@ -532,7 +632,7 @@ func (e *Engine) fork(alts []*term.Term) int {
 		}
 		ch := int(d.alts[d.cur])
 		e.assertDecision(e.tpos, alts[ch])
-		e.pc = append(e.pc, alts[ch])
+		e.addPC(alts[ch])
 		e.tpos++
 		return ch
 	}
@@ -558,13 +658,14 @@ func (e *Engine) fork(alts []*term.Term) int {
 	e.trace = append(e.trace, decision{n: len(feas), alts: feas, kind: 'f'})
 	ch := int(feas[0])
 	e.assertDecision(e.tpos, alts[ch])
-	e.pc = append(e.pc, alts[ch])
+	e.addPC(alts[ch])
 	e.tpos++
 	return ch
 }
 
 // branch decides a boolean condition.
 func (e *Engine) branch(c *term.Term) bool {
+	c = e.reduce(c, 0)
 	if c.IsTrue() {
 		return true
 	}
@@ -582,7 +683,7 @@ func (e *Engine) branch(c *term.Term) bool {
 			con = term.Not(c)
 		}
 		e.assertDecision(e.tpos, con)
-		e.pc = append(e.pc, con)
+		e.addPC(con)
 		e.tpos++
 		return ch == 0
 	}
@@ -612,13 +713,14 @@ func (e *Engine) branch(c *term.Term) bool {
 		con = term.Not(c)
 	}
 	e.assertDecision(e.tpos, con)
-	e.pc = append(e.pc, con)
+	e.addPC(con)
 	e.tpos++
 	return feas[0] == 0
 }
 
 // assume adds a constraint; ends the path if it is infeasible.
 func (e *Engine) assume(c *term.Term) {
+	c = e.reduce(c, 0)
 	if c.IsTrue() {
 		return
 	}
@@ -631,7 +733,7 @@ func (e *Engine) assume(c *term.Term) {
 			panic(internalf("replay divergence: expected assume, trace has %c", d.kind))
 		}
 		e.assertDecision(e.tpos, c)
-		e.pc = append(e.pc, c)
+		e.addPC(c)
 		e.tpos++
 		return
 	}
@@ -644,7 +746,7 @@ func (e *Engine) assume(c *term.Term) {
 	}
 	e.trace = append(e.trace, decision{n: 1, alts: []uint64{0}, kind: 'f'})
 	e.assertDecision(e.tpos, c)
-	e.pc = append(e.pc, c)
+	e.addPC(c)
 	e.tpos++
 }
 
@@ -700,7 +802,7 @@ func (e *Engine) concretize(t *term.Term, signed bool, what string) int64 {
 		v := d.alts[d.cur]
 		c := term.Eq(t, term.Const(t.W, v))
 		e.assertDecision(e.tpos, c)
-		e.pc = append(e.pc, c)
+		e.addPC(c)
 		e.tpos++
 		return conv(v)
 	}
@@ -742,7 +844,7 @@ func (e *Engine) concretize(t *term.Term, signed bool, what string) int64 {
 	e.trace = append(e.trace, decision{n: len(vals), alts: vals, kind: 'c'})
 	c := term.Eq(t, term.Const(t.W, vals[0]))
 	e.assertDecision(e.tpos, c)
-	e.pc = append(e.pc, c)
+	e.addPC(c)
 	e.tpos++
 	return conv(vals[0])
 }
@@ -757,6 +859,27 @@ func (e *Engine) model(extra ...*term.Term) ([]uint64, bool) {
 	for _, n := range e.nondets {
 		if n.isSym {
 			ts = append(ts, n.t)
+		}
+	}
+	useS2 := false
+	for _, p := range e.pc {
+		if p.HasMul {
+			useS2 = true
+		}
+	}
+	for _, x := range extra {
+		if x.HasMul {
+			useS2 = true
+		}
+	}
+	if useS2 {
+		if e.S2 == nil {
+			if s2, err := smt.New("cvc5-int", e.Opt.TimeoutMs); err == nil {
+				e.S2 = s2
+			}
+		}
+		if e.S2 != nil {
+			return e.modelS2(extra...)
 		}
 	}
 	e.S.Push()
@@ -868,6 +991,7 @@ func (e *Engine) stmtAt(site string) string {
 // assertions leave an entry in the decision trace so that replays of the
 // prefix do not query the solver again.
 func (e *Engine) assertProp(id string, c *term.Term) {
+	c = e.reduce(c, 0)
 	replay := e.tpos < len(e.trace)
 	if !replay {
 		e.Stats.Obligations++
